@@ -71,6 +71,11 @@ void hnd_any(coap_resource_t *, coap_session_t *, const coap_pdu_t *request, con
   Bytes tok = cx::tok_of(request);
   note_handler(0, tok, "the server's request handler");
   int i = index_of(tok);
+  if (i < 0) {
+    // libcoap's client re-sends under an internal token after an Echo challenge: the exchange is named by its i=<n> query
+    r1::Msg rq = cx::msg_from_pdu(request);
+    for (auto &o : rq.opts) if (o.num == 15 && o.val.size() >= 3 && o.val[0] == 'i' && o.val[1] == '=') i = atoi(std::string(o.val.begin() + 2, o.val.end()).c_str());
+  }
   if (i < 0 || i >= (int)g->msgs.size()) { coap_pdu_set_code(response, COAP_RESPONSE_CODE_NOT_FOUND); return; }
   g->handler_saw[i].push_back(cx::msg_from_pdu(request));
   const r1::Msg &rp = g->msgs[(size_t)i].resp;
@@ -284,6 +289,7 @@ struct C14 : Property {
       m.resp = msg_from(jm["resp"]);
       m.observe = jm.value("observe", false);
       m.req.token = {0xC1, 0x40, (uint8_t)cw.msgs.size()};
+      { std::string iq = "i=" + std::to_string(cw.msgs.size()); m.req.opts.push_back({15, Bytes(iq.begin(), iq.end())}); }
       if (m.req.find(39)) m.proxied = true;
       if (const r1::Opt *uh = m.req.find(3)) if (std::string(uh->val.begin(), uh->val.end()) != "me.example") m.proxied = true;
       cw.msgs.push_back(m);
@@ -422,7 +428,10 @@ struct C14 : Property {
         if (!d.empty()) res.violate("R9.request_altered", "at_server_handler", strfmt("exchange %zu: the server handler received %s, the client sent %s: %s", i, got.str().c_str(), cw.msgs[i].req.str().c_str(), d.c_str()));
       }
       for (auto &got : cw.client_saw[(int)i]) {
-        if (cw.unprotected_errors[cw.msgs[i].req.token].count(got.code) && got.payload != cw.msgs[i].resp.payload) continue;   // OSCORE-layer error (RFC 8613 8.2: sent unprotected)
+        // OSCORE-layer error (RFC 8613 8.2: sent unprotected); the wire token may be libcoap's internal one after an Echo retry
+        bool lib_err = false;
+        for (auto &ue : cw.unprotected_errors) if (ue.second.count(got.code)) lib_err = true;
+        if (lib_err && got.payload != cw.msgs[i].resp.payload) continue;
         if (got.code == 129 && cw.msgs[i].resp.code != 129) continue;      // 4.01 from OSCORE processing itself (replay, context)
         if (cw.msgs[i].req.find(16) && got.code == 168) continue;          // 5.08 Hop Limit Reached by the proxy logic
         if ((got.code >> 5) == 5 && cw.handler_saw[(int)i].empty()) continue;   // refused before the handler (proxy not available etc.)
